@@ -175,6 +175,20 @@ func c20Deliver(c *deliverCtx) {
 				return
 			}
 			w.stats.inc("c20_decoded_reencoded")
+			// the caller keeps a returned encoding (for retransmission), then sends ITS message again under the next
+			// message ID: the buffer it kept is its own and must not change when the message is encoded again
+			if r2.class() == "ok" && c.msg.IKEHeader != nil {
+				keptSnap := clone(enc2)
+				c.msg.MessageID ^= 0x00a5a5a5
+				r3 := &callResult{}
+				guard(r3, func() { _, r3.Err = c.msg.Encode() })
+				c.msg.MessageID ^= 0x00a5a5a5
+				if !bytes.Equal(enc2, keptSnap) {
+					w.violate("returned_buffer_changed_later", "IKEMessage.Encode", "a buffer returned by IKEMessage.Encode changed when the same message object was encoded again under another message ID")
+					return
+				}
+				w.stats.inc("c20_kept_encoding_checked_after_reencoding")
+			}
 		}
 	}
 	h := &held{msg: c.msg, snap: canon0, spec: snap0, left: rx.Hold + 1, step: w.step}
